@@ -78,6 +78,7 @@ type VFlow struct {
 	objMemo  map[ssa.Value]LabelSet
 	allocIdx map[string]*ssa.Alloc
 	ctx      []ssa.CallInstruction // call-site context of the query in progress (innermost last)
+	stopAt   func(*ssa.Call) bool  // resolve(): calls the caller wants to see instead of their results
 }
 
 // transparent transformers: result is derived from the listed operands only.
@@ -519,6 +520,35 @@ func (vf *VFlow) callResult(t ssa.Value, idx int, fl uint8, out LabelSet, seen m
 			out.add("dyncall:"+l+fmt.Sprintf("#%d", idx), fl)
 		}
 		return
+	}
+	if name == "(*strings.Builder).String" && len(com.Args) == 1 {
+		// a local strings.Builder is a concatenation of what was written to it
+		if al, isAl := com.Args[0].(*ssa.Alloc); isAl {
+			var parts []ssa.Value
+			closed := true
+			for _, ref := range *al.Referrers() {
+				switch y := ref.(type) {
+				case ssa.CallInstruction:
+					switch calleeName(y) {
+					case "(*strings.Builder).WriteString", "(*strings.Builder).Write", "(*strings.Builder).WriteByte", "(*strings.Builder).WriteRune":
+						parts = append(parts, y.Common().Args[1:]...)
+					case "(*strings.Builder).String", "(*strings.Builder).Len", "(*strings.Builder).Grow", "(*strings.Builder).Reset", "(*strings.Builder).Cap":
+					default:
+						closed = false
+					}
+				case *ssa.DebugRef:
+				default:
+					closed = false
+				}
+			}
+			if closed {
+				out.add("via:concat", 0)
+				for _, p := range parts {
+					vf.walk(p, fl|flTransformed, out, seen, depth+1)
+				}
+				return
+			}
+		}
 	}
 	if transformers[name] || transformers[strings.TrimPrefix(name, "iface:")] || (com.IsInvoke() && com.Method.Name() == "Error" && len(com.Args) == 0) {
 		out.add("via:"+shortCallee(name), 0)
@@ -994,15 +1024,18 @@ func (vf *VFlow) isContainerAlloc(l string) bool {
 	return isArr
 }
 
-// StoreSourcesIn: like FieldStoreSources but only the store sites inside function fnKey
-// (or closures of it).
+// StoreSourcesIn: like FieldStoreSources but only the store sites inside function fnKey, its closures and the
+// module functions it calls (a literal moved into a helper still counts).
 func (vf *VFlow) StoreSourcesIn(fnKey, owner, name string) (LabelSet, []*ssa.Store) {
 	out := LabelSet{}
 	_, sites := vf.FieldStoreSources(owner, name)
+	under := map[*ssa.Function]bool{}
+	if fn := vf.cx.W.Func(fnKey); fn != nil {
+		vf.cx.W.refClosure(fn, under)
+	}
 	var sel []*ssa.Store
 	for _, st := range sites {
-		k := vf.cx.W.FuncKey(st.Parent())
-		if k == fnKey || strings.HasPrefix(k, fnKey+"$") {
+		if under[st.Parent()] {
 			sel = append(sel, st)
 			out.addAll(vf.Labels(st.Val), 0)
 		}
